@@ -58,7 +58,8 @@ class TreeSpec(Spec):
         if sim.root is not None and getattr(sim.root, "data", None) is not None:
             for n in sim.root.members:
                 h.update(n.full_name.encode())
-                h.update(n.data.to_numpy(dtype=float, na_value=float("nan")).tobytes())
+                if getattr(n, "data", None) is not None:
+                    h.update(n.data.to_numpy(dtype=float, na_value=float("nan")).tobytes())
         return dict(
             viol=sim.viol,
             digest=h.hexdigest()[:20],
@@ -304,6 +305,13 @@ class C10(TreeSpec):
             if f.get("open_nan_raise") or f.get("ill_custom_price") or f.get("ill_fi_child") or f.get("ill_transact_nan"):
                 res["nontrivial"] = True
                 res["info"]["ill_arose_" + ill] = 1
+        if plan["driver"] == "engine":
+            used = set()
+            for _p, s in drive_engine.trees.strategies(plan["tree"]):
+                used |= {a.get("a") for a in s.get("algos", [])}
+            for v in res["viol"]:
+                if v["check"] == "C10.unexpected_exception":
+                    v["flags"]["stack_uses_LimitWeights"] = "LimitWeights" in used
         if plan["driver"] == "engine" and plan["cfg"].get("dupcheck", True):
             if not drive_engine.check_dup_columns(bt, plan):
                 res["viol"].append({"check": "C10.ill_not_raised", "detail": "Backtest accepted duplicate column names", "flags": {"ill": "dup_cols"}})
@@ -2047,7 +2055,12 @@ class C15(Spec):
                 hi = r.choice([1.0, 0.6, 0.4, 0.2])
                 inner = {"a": a, "kw": {"bounds": [lo, hi], "weight_sum": r.choice([1, 1, 0.5])}}
             elif a == "LimitWeights":
-                pre.append({"a": "WeighSpecified", "weights": wvec(sel or full[:1])})
+                pw = wvec(sel or full[:1])
+                if len(pw) >= 2 and r.random() < 0.25:
+                    # everything in one name, the others at zero
+                    names_ = list(pw)
+                    pw = {n: (1.0 if n == names_[0] else 0.0) for n in names_}
+                pre.append({"a": "WeighSpecified", "weights": pw})
                 inner = {"a": a, "kw": {"limit": r.choice([0.1, 0.3, 0.4, 0.6, 0.9])}}
             else:
                 pre.append({"a": "WeighSpecified", "weights": wvec(sel if len(sel) >= 2 else full[:2] if len(full) >= 2 else full)})
